@@ -100,5 +100,10 @@ func (h *discoHandler) HandleIQ(iq stanza.IQ, r xmlstream.TokenReadEncoder, star
 		pr,
 		*start,
 	)))
+	// If the reply could not be written to the end (the output stream was
+	// closed in the meantime, for example) nobody reads from the pipe any more:
+	// close it so that the producer above does not block for ever.
+	/* #nosec */
+	pr.Close()
 	return err
 }
